@@ -117,7 +117,7 @@ M = [
     ("C17", S, "y = self.remove_esd(cifblk['_atom_site_fract_y'][i])", "y = self.remove_esd(cifblk['_atom_site_fract_x'][i])", None, "violation", "C17:cif:"),
     ("C17", S, "self.remove_esd(cifblk['_atom_site_aniso_B_23'][anisonumber])/(8*n.pi**2),", "self.remove_esd(cifblk['_atom_site_aniso_B_23'][anisonumber]),", None, "violation", "C17:cif:Bani"),
     ("C17", S, "                occ = float(text[i][54:60])", "                occ = float(text[i][55:60])", None, "violation", "C17:pdb:ATOM:occ"),
-    ("C17", S, "                scaleline = int(scale[0][-1])-1", "                scaleline = int(scale[0][-1])", None, "violation", "C17:pdb:SCALE"),
+    ("C17", S, "                scaleline = int(scale[0][-1])-1", "                scaleline = int(scale[0][-1])", None, "violation", "C17:pdb:reads"),
     ("C17", S, "            value = float(a[:a.find('(')])", "            value = float(a[:a.find('(')+1])", None, "violation", "C17:esd:remove_esd"),
     # ---------------------------------------------------------------- C18
     ("C18", L, "        if dist >  0.00001:", "        if dist >  -0.00001:", None, "violation", "C18:guards:laue"),
